@@ -143,8 +143,11 @@ def finish(ctx):
     ev = {'property_id': ctx.prop, 'tier': ctx.tier, 'seed': int(ctx.seed), 'level': LEVEL, 'coverage': jsonable_deep(cov),
           'assumptions': ctx.assumptions, 'wall_s': round(wall, 2), 'violations': len(ctx.mon.viols) - sum(
               n for _, n in known_seen.values())}
-    os.makedirs(os.path.join(env.VERIF, 'evidence'), exist_ok=True)
-    with open(os.path.join(env.VERIF, 'evidence', f'{ctx.prop}.json'), 'w', encoding='utf-8') as f:
+    # evidence under /verif/evidence only describes runs against /repo itself; runs against another tree (GXV_REPO,
+    # used by bin/selftest and for seeded changes) write to the git-ignored work/ directory
+    evdir = os.path.join(env.VERIF, 'evidence') if os.path.realpath(env.REPO) == '/repo' else os.path.join(env.VERIF, 'work')
+    os.makedirs(evdir, exist_ok=True)
+    with open(os.path.join(evdir, f'{ctx.prop}.json'), 'w', encoding='utf-8') as f:
         json.dump(ev, f, indent=1, default=repr)
     total = sum(ctx.mon.evals.values())
     print(f'{ctx.prop} tier={ctx.tier} seed={ctx.seed}: {ctx.evaluations} executions, {len(ctx.distinct)} distinct '
